@@ -427,6 +427,24 @@ def fam_c18_logos(R, n):
                 src = enum(['#[logos(%s)]' % ', '.join(perm)], ['#[regex("[a-z]+")] Id,', '#[token("=")] Eq,'])
                 out.append(dict(family='c18-logos-pairs', src=src, meta=dict(group=gid, perm=list(perm))))
             gid += 1
+    # single-valued items given twice with different values: both orders must end the same way
+    for (a, b) in [('crate = logos', 'crate = ::logos'), ('crate = logos', 'crate = not_a_crate'), ('extras = MyExtras', 'extras = u8'), ('error = MyErr', 'error = OtherErr'),
+                   ('utf8 = true', 'utf8 = false'), ('error = MyErr', 'error(OtherErr)'), ('subpattern ab = "a"', 'subpattern ab = "b"')]:
+        for perm in ((a, b), (b, a)):
+            src = enum(['#[logos(%s)]' % ', '.join(perm)], ['#[regex("[a-z]+")] Id,', '#[token("=")] Eq,'])
+            out.append(dict(family='c18-logos-dups', src=src, meta=dict(group=gid, perm=list(perm), exact=True)))
+        gid += 1
+    # items that refer to the enum's generic parameters (lifetime, type): no item moves a leaf, so every order must give the very same code
+    generic = [("pub enum T<X>", ['lifetime = none', "type X = &'static str"], ['#[token("fizz", |_| "fizz")] Value(X),']),
+               ("pub enum T<'a, X>", ["lifetime = 'a", "type X = &'a str"], ['#[regex("[a-z]+")] Id(X),', '#[token("=")] Eq,']),
+               ("pub enum T<'a, X>", ["lifetime = 'a", "type X = Option<&'a str>", 'extras = u8'], ['#[regex("[a-z]+", |lex| Some(lex.slice()))] Id(X),', '#[token("=")] Eq,']),
+               ("pub enum T<'s, 'b>", ["lifetime = 's", "extras = &'b u8", 'utf8 = true'], ['#[regex("[a-z]+")] Id(&\'s str),', '#[token("=")] Eq(core::marker::PhantomData<&\'b ()>),']),
+               ("pub enum T<X, Y>", ['type X = u8', 'type Y = u16', 'lifetime = none'], ['#[token("a", |_| 1u8)] A(X),', '#[token("b", |_| 2u16)] B(Y),'])]
+    for (head, items_, variants) in generic:
+        for perm in itertools.permutations(items_):
+            src = '\n'.join([HDR, '#[logos(%s)]' % ', '.join(perm), head + ' {'] + ['    ' + v for v in variants] + ['}'])
+            out.append(dict(family='c18-logos-generic', src=src, meta=dict(group=gid, perm=list(perm), exact=True)))
+        gid += 1
     for i in range(n):
         k = R.choice([2, 3, 3, 4])
         items = R.sample(LOGOS_ITEMS, k)
@@ -626,6 +644,16 @@ def fam_c04():
         out.append(dict(family='c04-skip', src=enum(['#[logos(skip(%s))]' % rust_str(p)], [other]), meta=dict(closed=False)))
         out.append(dict(family='c04-skip-bare', src=enum(['#[logos(skip %s)]' % rust_str(p)], [other]), meta=dict(closed=False)))
         out.append(dict(family='c04-subpattern', src=enum(['#[logos(subpattern s0 = %s)]' % rust_str(p)], ['#[regex("x(?&s0)")] A,', other]), meta=dict(closed=False)))
+    # a subpattern that can match invalid UTF-8 is refused on its own account: when nothing refers to it, and when every
+    # pattern that refers to it is valid UTF-8 as a whole (the other half of the code point is written next to the reference)
+    for p in bad_str:
+        out.append(dict(family='c04-subpattern-unused', src=enum(['#[logos(subpattern s0 = %s)]' % rust_str(p)], [other]), meta=dict(closed=False)))
+    for (sub, use) in [('(?-u:\\xC3)', '(?&s0)(?-u:\\xA9)'), ('(?-u:[\\x80-\\xBF])', '(?-u:\\xC3)(?&s0)'), ('(?-u:\\xE2\\x82)', 'x(?&s0)(?-u:\\xAC)+'),
+                       ('(?-u:\\x9F\\x98\\x80)', '(?-u:\\xF0)(?&s0)')]:
+        out.append(dict(family='c04-subpattern-completed', src=enum(['#[logos(subpattern s0 = %s)]' % rust_str(sub.replace('\\\\', '\\'))],
+                                                                   ['#[regex(%s)] A,' % rust_str(use.replace('\\\\', '\\')), other]), meta=dict(closed=False)))
+        out.append(dict(family='c04-subpattern-completed', src=enum(['#[logos(subpattern s0 = %s)]' % rust_str(sub.replace('\\\\', '\\')), '#[logos(skip(%s))]' % rust_str(use.replace('\\\\', '\\'))],
+                                                                   [other]), meta=dict(closed=False)))
     for b in bad_bytes:
         lit = 'b"%s"' % b.decode('ascii')
         out.append(dict(family='c04-regex-b', src=enum([], ['#[regex(%s)] A,' % lit, other]), meta=dict(closed=False)))
